@@ -36,7 +36,7 @@ Record target_obs := {
 }.
 
 Inductive case :=
-| CFlow (canon strict : bool) (started : list flow) (issued : list sealed) (r : cb_req)
+| CFlow (canon strict : bool) (starts : list started) (issued : list sealed) (r : cb_req)
         (redir : list (str * str)) (o : flow_obs)
 | CTarget (hosts : list str) (hdr_host : str) (t : str) (o : target_obs).
 
@@ -131,6 +131,8 @@ Record flow_clauses := {
   k_distinct_cipher : bool;     (* ... which are different ciphertexts *)
   k_same_record : bool;         (* ... and open to the same flow record *)
   k_started_flow : bool;        (* ... which is a flow this proxy started *)
+  k_own_start : bool;           (* ... and both values were produced by ONE OAuthStart run: the browser's own flow,
+                                   not the state of flow A with the cookie of flow B *)
   k_redeemed : bool;            (* the authenticator redeemed the code, e-mail non-empty, and it was asked *)
   k_validated : bool;           (* some validator passed *)
   k_bound_to_host : bool;       (* session e-mail is the redeemed one, AuthorizedUpstream = req.Host *)
@@ -140,7 +142,11 @@ Record flow_clauses := {
 
 Definition payload_flow (p : payload) : option flow := match p with PFlow f => Some f | PSession _ => None end.
 
-Definition clauses (started : list flow) (issued : list sealed) (r : cb_req) (redir : list (str * str))
+(* the real OAuthStart runs of the case: each produced one flow record and two sealed values *)
+Definition started_flows (starts : list started) : list flow := map st_flow starts.
+Definition produced_by (e : started) (c : sealed) : bool := sealed_eqb c (st_cookie e) || sealed_eqb c (st_state e).
+
+Definition clauses (starts : list started) (issued : list sealed) (r : cb_req) (redir : list (str * str))
                    (o : flow_obs) (s : session) : flow_clauses :=
   let st := spelled (cb_state r) in
   let ck := match cb_cookie r with Some w => spelled w | None => None end in
@@ -151,7 +157,8 @@ Definition clauses (started : list flow) (issued : list sealed) (r : cb_req) (re
       {| k_sealed_by_proxy := N.eqb k1 PROXY_KEY && N.eqb k2 PROXY_KEY && sealed_in c1 issued && sealed_in c2 issued;
          k_distinct_cipher := negb (sealed_eqb c1 c2);
          k_same_record := match f1, f2 with Some a, Some b => flow_eqb a b | _, _ => false end;
-         k_started_flow := match f1 with Some a => flow_in a started | None => false end;
+         k_started_flow := match f1 with Some a => flow_in a (started_flows starts) | None => false end;
+         k_own_start := existsb (fun e => produced_by e c1 && produced_by e c2) starts;
          k_redeemed := fo_redeem_called o && negb (nil_str (cb_code r)) &&
                        match cb_redeem r with RedeemOk e => negb (nil_str e) | RedeemErr => false end;
          k_validated := cb_valid r;
@@ -163,12 +170,13 @@ Definition clauses (started : list flow) (issued : list sealed) (r : cb_req) (re
          k_location_same_site := on_host (cb_host r) (fo_location o) |}
   | _, _ =>
       {| k_sealed_by_proxy := false; k_distinct_cipher := false; k_same_record := false; k_started_flow := false;
+         k_own_start := false;
          k_redeemed := false; k_validated := false; k_bound_to_host := false; k_location_recorded := false;
          k_location_same_site := false |}
   end.
 
 Definition all_clauses (k : flow_clauses) : bool :=
-  k_sealed_by_proxy k && k_distinct_cipher k && k_same_record k && k_started_flow k && k_redeemed k &&
+  k_sealed_by_proxy k && k_distinct_cipher k && k_same_record k && k_started_flow k && k_own_start k && k_redeemed k &&
   k_validated k && k_bound_to_host k && k_location_recorded k && k_location_same_site k.
 
 (* signatures of the two known findings (known_findings.d/C06.json) *)
@@ -176,7 +184,7 @@ Definition all_clauses (k : flow_clauses) : bool :=
    ciphertext (possible only with non-canonical base64 decoding, DESIGN §7-D1) *)
 Definition sig_noncanonical (canon : bool) (r : cb_req) (k : flow_clauses) : bool :=
   negb canon && negb (k_distinct_cipher k) &&
-  k_sealed_by_proxy k && k_same_record k && k_started_flow k && k_redeemed k && k_validated k &&
+  k_sealed_by_proxy k && k_same_record k && k_started_flow k && k_own_start k && k_redeemed k && k_validated k &&
   k_bound_to_host k && k_location_recorded k && k_location_same_site k &&
   match spelled (cb_state r), (match cb_cookie r with Some w => spelled w | None => None end) with
   | Some (v1, _), Some (v2, _) => negb (N.eqb v1 v2)
@@ -192,20 +200,20 @@ Definition sig_type_confusion (r : cb_req) (redir : list (str * str)) (o : flow_
   | _, _ => false
   end.
 
-Definition flow_holds (started : list flow) (issued : list sealed) (r : cb_req) (redir : list (str * str))
+Definition flow_holds (starts : list started) (issued : list sealed) (r : cb_req) (redir : list (str * str))
                       (o : flow_obs) : bool :=
   negb (req_derivable PROXY_KEY issued r) ||      (* strings no client could have built: not judged *)
   match fo_session o with
   | None => true                                  (* no session cookie: nothing to justify *)
-  | Some s => all_clauses (clauses started issued r redir o s)
+  | Some s => all_clauses (clauses starts issued r redir o s)
   end.
 
-Definition flow_known (canon : bool) (started : list flow) (issued : list sealed) (r : cb_req)
+Definition flow_known (canon : bool) (starts : list started) (issued : list sealed) (r : cb_req)
                       (redir : list (str * str)) (o : flow_obs) : N :=
   match fo_session o with
   | None => 0
   | Some s =>
-      let k := clauses started issued r redir o s in
+      let k := clauses starts issued r redir o s in
       if sig_noncanonical canon r k then 1
       else if sig_type_confusion r redir o k then 2
       else 0
@@ -213,9 +221,9 @@ Definition flow_known (canon : bool) (started : list flow) (issued : list sealed
 
 Definition judge (c : case) : N :=
   match c with
-  | CFlow canon strict started issued r redir o =>
-      code (flow_mismatch canon strict r redir o) (flow_holds started issued r redir o)
-           (flow_known canon started issued r redir o)
+  | CFlow canon strict starts issued r redir o =>
+      code (flow_mismatch canon strict r redir o) (flow_holds starts issued r redir o)
+           (flow_known canon starts issued r redir o)
   | CTarget hosts hh t o =>
       code (target_mismatch hosts hh t o) (target_holds hosts hh t o) 0
   end.
@@ -247,9 +255,9 @@ Definition cb_branch (canon strict : bool) (r : cb_req) : N :=
 
 Definition classify (c : case) : N :=
   match c with
-  | CFlow canon strict started issued r redir o =>
+  | CFlow canon strict starts issued r redir o =>
       match fo_session o with
-      | Some _ => 1 + flow_known canon started issued r redir o      (* 1 own flow, 2 K1, 3 K2 *)
+      | Some _ => 1 + flow_known canon starts issued r redir o      (* 1 own flow, 2 K1, 3 K2 *)
       | None => 10 + cb_branch canon strict r
       end
   | CTarget hosts hh t o =>
